@@ -545,6 +545,7 @@ func run(c *mc.Ctx) {
 	must("cancelling-pair(S-1,k2)", "zip215", false)
 
 	expandedVsSingle(c)
+	flagSweep(c)
 	expandedReuse(c)
 	entropyUse(c)
 	zeroValueExpanded(c)
